@@ -401,8 +401,12 @@ func ruleBLSVerify(c *Ctx) {
 					c.ok(key, call.Pos(), "false result refuses")
 				}
 			case *ast.IfStmt:
-				// `if blsu.Verify(...) {accept}`: the else/fallthrough must refuse; not used today
-				c.unm(key, call.Pos(), "positive-form test")
+				// `if blsu.Verify(...) { ... }`: the branch taken on a VALID signature must not be a refusal
+				if p.Cond == ast.Expr(call) && refusalBlock(info, p.Body, fd) {
+					c.bad(key, call.Pos(), "a valid signature leads to the refusal branch (the test is inverted: valid messages are refused, forged ones pass)")
+				} else {
+					c.unm(key, call.Pos(), "positive-form test")
+				}
 			case *ast.ExprStmt:
 				c.bad(key, call.Pos(), "verification result is discarded")
 			case *ast.AssignStmt:
